@@ -9,7 +9,9 @@ faulthandler.enable()
 
 
 def main():
-    prop, spec, out = sys.argv[1], json.loads(sys.argv[2]), sys.argv[3]
+    prop, out = sys.argv[1], sys.argv[3]
+    with open(sys.argv[2]) as f:
+        spec = json.load(f)
     from vf import env
     env.setup_path(registry=spec.get("registry", True))
     from vf.ctx import Ctx
